@@ -439,8 +439,10 @@ def d4_cache(ctx, idx, st):
                  if nf.match('%s.cache' % me, n.func.value) is not None]
         if extra:
             r.undecided('MathParser.parse: cache store', 'cache filled through `%s`' % short(extra[0]), lib.loc(fi, extra[0]))
-        if not stores:
-            raise AnalysisError('MathParser.parse: no store into self.cache')
+        if not stores and not extra:
+            # nothing is ever cached: every call parses afresh, so no outcome can depend on an earlier call through the cache
+            r.ok('MathParser.parse: cache store order', 'no store into the cache at all: nothing is cached', fi.loc)
+            r.ok('MathParser.parse: cached value', 'no store into the cache at all', fi.loc)
         st_call = lib.enclosing_stmt(call)
         for s in stores:
             where = lib.loc(fi, s)
@@ -1065,5 +1067,6 @@ BENIGN = [
            "        if cache_key not in self.cache:\n            try:\n                self.cache[cache_key] = self.raw_parse(cache_key)\n"
            "            except ParseException:\n                raise UnableToParse(f\"Invalid Input: Could not parse '{expression}' as a formula\")\n\n"
            "        return self.cache[cache_key]\n"),
+    Benign('cache-store-removed', EXPR, "        self.cache[cache_key] = parsed\n        return parsed", "        return parsed"),
     Benign('grammar-signs-by-tuple-assignment', EXPR, "        minus = Literal(\"-\") | emdash\n", "        minus, dash = (Literal(\"-\") | emdash, emdash)\n"),
 ]
